@@ -359,8 +359,9 @@ def build():
 
     C.assume("A-FLOAT: brightness/time arithmetic over the reals")
     C.assume("A-ASYNCIO: a created fade task runs later and its last command is its target; cancel() stops it")
-    C.assume("Light._schedule_update, _get_color_and_fade, _get_color_and_target_time, gamma/colour correction and the "
-             "batch light system are not yet under contract (the stack invariant and the back-end contracts are)")
+    C.assume("in THIS set Light._schedule_update, _get_color_and_fade and _get_color_and_target_time are used through "
+             "assumed summaries; they are verified in the further sets of this property (channel shares U1; colour of the "
+             "stack T1/T2/F1, bounded stacks); gamma / colour correction are modelled as the identity")
     return C
 
 
@@ -465,7 +466,7 @@ def build_extra():
     C.assume("the batch light system is checked for batches of 1-2 lights with one fade chunk each; the scheduler and "
              "sender tasks (_schedule_updates, _send_updates) are not under contract")
     C.only_verify = ["PlatformBatchLightSystem._send_update_batch"]
-    return [C, schedule_update_set()]
+    return [C, schedule_update_set(), stack_target_set()]
 
 
 def schedule_update_set():
@@ -579,4 +580,122 @@ def schedule_update_set():
     C.assume("brightness / colour correction are applied to start and target colour alike and are modelled as the "
              "identity; the skip of unchanged fade targets (_last_fade_target) is not covered (first update only)")
     C.only_verify = ["Light._schedule_update"]
+    return C
+
+
+def stack_target_set():
+    """Light._get_color_and_target_time: the colour (and fade) the hardware is told is the one of the top-most layer
+    that is not transparent; a settled stack yields exactly the destination colour of that layer (or off)."""
+    C = ContractSet("C09", "Light._get_color_and_target_time: colour of the stack")
+    C.strings = False
+    NL = common.bound(2, 3)
+    C.cls("SystemWideDevice", fields={})
+    C.cls("DevicePositionMixin", fields={})
+    C.cls("ColorV", fields=dict(red=Int, green=Int, blue=Int))
+    CV = ObjS("ColorV", red=Int, green=Int, blue=Int)
+    C.cls("LightStackEntry", fields=dict(priority=Int, key=Str, start_time=Real, start_color=CV, dest_time=Real,
+                                         dest_color=Opt(CV)))
+
+    def stack(I, name):
+        ents = []
+        for i in range(I.ctx.fork(NL + 1)):
+            e = I.fresh(ObjS("LightStackEntry"), "%s[%d]" % (name, i))
+            dt = I.force(I.read_field(e.ref, "dest_time")).t
+            st = I.force(I.read_field(e.ref, "start_time")).t
+            # an entry either has no fade (dest_time 0) or fades from start_time to a later dest_time (stack invariant)
+            I.ctx.assume(z3.Or(dt == 0, z3.And(st > 0, dt > st)))
+            ents.append(e)
+        I.__dict__["c09_stack"] = ents
+        return I.new_list(ents, name)
+    C.cls("RGBColorCls", fields={})
+    C.globals["RGBColor"] = VCls("RGBColor")
+
+    def blend(I, a, k):
+        c = I.fresh(CV, I.fresh_name("blend"))
+        emit(I, "blend", start=a[0], end=a[1], ratio=a[2])
+        return c
+    C.globals["RGBColor.blend"] = VFn("model", model=blend)
+    C.cls("Light", file=LIGHT, bases=["SystemWideDevice", "DevicePositionMixin"], fields=dict(_off_color=CV))
+
+    def entries(I):
+        return I.__dict__.get("c09_stack", [])
+
+    def fld(I, e, f):
+        return I.read_field(e.ref, f)
+
+    def settled(I):
+        """no layer is fading"""
+        return VBool(z3.And([I.force(fld(I, e, "dest_time")).t == 0 for e in entries(I)] + [z3.BoolVal(True)]))
+    C.helpers["settled"] = settled
+
+    def is_color(I, v, target):
+        """v is the colour object `target` (identity of the modelled colour objects, or None)"""
+        v = I.force(v) if not isinstance(v, VUnion) else v
+        alts = v.alts if isinstance(v, VUnion) else ((z3.BoolVal(True), v),)
+        tv = I.force(target) if not isinstance(target, VUnion) else target
+        talts = tv.alts if isinstance(tv, VUnion) else ((z3.BoolVal(True), tv),)
+        cs = []
+        for g, a_ in alts:
+            for g2, b_ in talts:
+                same = (a_.tag == "obj" and b_.tag == "obj" and a_.ref is b_.ref) or (a_.tag == "none" and b_.tag == "none")
+                cs.append(z3.And(g, g2, z3.BoolVal(bool(same))))
+        return z3.Or(cs + [z3.BoolVal(False)])
+
+    def top_opaque_dest(I, result_color):
+        """result_color is the destination colour of the first layer that is not transparent - off if there is none"""
+        this = I.frames[0].env["self"].ref
+        off = I.read_field(this, "_off_color")
+        acc = is_color(I, result_color, off)
+        for e in reversed(entries(I)):
+            dc = fld(I, e, "dest_color")
+            transparent = I.is_none(dc)
+            acc = z3.If(transparent, acc, is_color(I, result_color, dc))
+        return VBool(acc)
+    C.helpers["top_opaque_dest"] = top_opaque_dest
+
+    def top_is_colour_fade(I):
+        es = entries(I)
+        if not es:
+            return VBool(False)
+        return VBool(z3.And(I.force(fld(I, es[0], "dest_time")).t != 0, z3.Not(I.is_none(fld(I, es[0], "dest_color")))))
+    C.helpers["top_is_colour_fade"] = top_is_colour_fade
+
+    def is_top_fade(I, result):
+        e = entries(I)[0]
+        r = I.force(result).items
+        return VBool(z3.And(is_color(I, r[0], fld(I, e, "start_color")), I.eq(r[1], fld(I, e, "start_time")),
+                            is_color(I, r[2], fld(I, e, "dest_color")), I.eq(r[3], fld(I, e, "dest_time"))))
+    C.helpers["is_top_fade"] = is_top_fade
+    C.fn("Light._get_color_and_target_time", params=dict(stack=Init(stack)),
+         ensures=[("T1: a settled stack (no layer fading) shows exactly the destination colour of its top-most layer "
+                   "that is not transparent - off if there is none - and no fade is reported",
+                   "implies(settled(), top_opaque_dest(result[2]) and top_opaque_dest(result[0]) and result[1] == -1 "
+                   "and result[3] == -1)"),
+                  ("T2: a top layer that fades to a colour is reported as that fade: start colour and time, destination "
+                   "colour and time of THAT layer", "implies(top_is_colour_fade(), is_top_fade(result))")],
+         modifies=[], raises={}, inline_calls=True,
+         bounded="BOUNDED: stacks of at most %d layers (recursion executed in line)" % NL)
+    C.cls("ClockBase", fields=dict(now=Real))
+    C.ext("ClockBase.get_time", model=lambda I, env, a, k: I.read_field(env["self"].ref, "now"), trusted_reason="loop clock")
+    C.classes["Light"].fields["machine"] = ObjS("MachineController", clock=ObjS("ClockBase"))
+
+    def all_fades_over(I, now):
+        t = I.num(now)
+        nt = t[1] if t[0] == "real" else z3.ToReal(t[1])
+        return VBool(z3.And([z3.Or(I.force(fld(I, e, "dest_time")).t == 0, nt >= I.force(fld(I, e, "dest_time")).t)
+                             for e in entries(I)] + [z3.BoolVal(True)]))
+    C.helpers["all_fades_over"] = all_fades_over
+    C.fn("Light._get_color_and_fade", params=dict(stack=Init(stack), max_fade_ms=Int, current_time=Opt(Real)),
+         requires=[("the look-ahead is not negative", "max_fade_ms >= 0")],
+         lets={"now": "current_time if current_time is not None else self.machine.clock.now"},
+         ensures=[("F1: once every fade of the stack is over (or there never was one) the light shows exactly the "
+                   "destination colour of the top-most layer that is not transparent - off if there is none - and "
+                   "reports that nothing more is to come (no further fade, done)",
+                   "implies(all_fades_over(now) and (current_time is None or current_time == self.machine.clock.now), "
+                   "top_opaque_dest(result[0]) and result[1] == -1 and result[2])")],
+         modifies=[], raises={}, inline_calls=True,
+         bounded="BOUNDED: stacks of at most %d layers (recursion executed in line)" % NL)
+    C.only_verify = ["Light._get_color_and_target_time", "Light._get_color_and_fade"]
+    C.assume("stack entries either have no fade (dest_time 0) or 0 < start_time < dest_time (established by "
+             "Light._add_to_stack / color(): main set); fade-out interpolation (RGBColor.blend) is C09's blend contract")
     return C
